@@ -37,6 +37,8 @@ def showRes : Res → String
   | .error .tokenMismatch => "E:TokenMismatch"
   | .error .contention => "E:LockContention"
   | .error .lockError => "E:LockError"
+  | .error .notWriteLocked => "E:NotWriteLocked"
+  | .error .bzrError => "E:BzrError"
 
 def parseOp (s : String) : Option Op :=
   if s == "r" then some .lockRead
@@ -61,29 +63,91 @@ def trace {σ ω : Type} (step : σ → ω → σ × Res) (sh : σ → String) :
 
 def reply (l : List String) : String := if l.isEmpty then "-" else ";".intercalate l
 
-/-- `cl EXT OPS` | `lf EXT OPS` | `repo EXT OPS` | `branch EXT SOPS` | `branchG EXT SOPS`
-(EXT `T`/`F`: a lock with the known nonce pre-exists on disk; OPS comma list of
-`r w wA wB u`, SOPS the same prefixed with `b` (branch) or `p` (repository)) -/
+def showTree (s : Tree) : String := showLF s.cf ++ "|" ++ showBranch s.branch
+
+def parseTOp (s : String) : Option TOp :=
+  match s.toList with
+  | 't' :: rest =>
+    let r := String.ofList rest
+    if r == "r" then some (.tree .lockRead)
+    else if r == "t" then some (.tree .lockTreeWrite)
+    else if r == "w" then some (.tree .lockWrite)
+    else if r == "u" then some (.tree .unlock)
+    else none
+  | 'b' :: rest => (parseOp (String.ofList rest)).map TOp.branch
+  | 'p' :: rest => (parseOp (String.ofList rest)).map TOp.repo
+  | _ => none
+
+def parseWOp (s : String) : Option WOp :=
+  if s == "g" then some .startWG
+  else if s == "a" then some .abortWG
+  else (parseOp s).map WOp.op
+
+def showRepoW (s : RepoW) : String := showRepo s.repo ++ "," ++ (if s.wg then "G" else "-")
+
+/-- environment: `T`/`F` (a lock with the known nonce pre-exists on disk) followed by
+any of the flags `x` (the object's own lock refuses `lock_read()`; kinds cl/lf/repo),
+`t` / `c` / `p` (the tree's / the branch's / the repository's control-files lock does) -/
+structure Env where
+  ext : Bool
+  x : Bool
+  t : Bool
+  c : Bool
+  p : Bool
+
+def parseEnv (s : String) : Option Env :=
+  match s.toList with
+  | e :: fl =>
+    if fl.all (fun ch => ch == 'x' || ch == 't' || ch == 'c' || ch == 'p') then
+      (parseBool (String.ofList [e])).map fun b =>
+        { ext := b, x := fl.contains 'x', t := fl.contains 't', c := fl.contains 'c', p := fl.contains 'p' }
+    else none
+  | [] => none
+
+/-- `cl ENV OPS` | `lf ENV OPS` | `repo ENV OPS` | `branch ENV SOPS` | `branchG ENV SOPS` |
+`tree ENV TOPS` | `treeG ENV TOPS` | `repow FX ENV WOPS` (OPS plus `g` start_write_group, `a`
+abort_write_group; FX = T: unlock with the proposed fix) | `branchS FX ENV SOPS` (the branch's
+config store raises in save_changes(); FX = T: with the proposed fix)
+(OPS comma list of `r w wA wB u`, SOPS the same prefixed with `b` (branch) or `p`
+(repository), TOPS additionally `tr tt tw tu` (tree lock_read / lock_tree_write /
+lock_write / unlock)) -/
 def handle : List String → String
   | ["cl", e, ops] =>
-    match parseBool e, (splitList ops).mapM parseOp with
-    | some e, some ops => reply (trace CL.step showCL (CL.init e) ops)
+    match parseEnv e, (splitList ops).mapM parseOp with
+    | some e, some ops => reply (trace CL.step showCL (CL.init e.ext e.x) ops)
     | _, _ => "bad-op"
   | ["lf", e, ops] =>
-    match parseBool e, (splitList ops).mapM parseOp with
-    | some e, some ops => reply (trace LF.step showLF (LF.init e) ops)
+    match parseEnv e, (splitList ops).mapM parseOp with
+    | some e, some ops => reply (trace LF.step showLF (LF.init e.ext e.x) ops)
     | _, _ => "bad-op"
   | ["repo", e, ops] =>
-    match parseBool e, (splitList ops).mapM parseOp with
-    | some e, some ops => reply (trace Repo.step showRepo (Repo.init e) ops)
+    match parseEnv e, (splitList ops).mapM parseOp with
+    | some e, some ops => reply (trace Repo.step showRepo (Repo.init e.ext e.x) ops)
     | _, _ => "bad-op"
   | ["branch", e, ops] =>
-    match parseBool e, (splitList ops).mapM parseSOp with
-    | some e, some ops => reply (trace Branch.step showBranch (Branch.init e) ops)
+    match parseEnv e, (splitList ops).mapM parseSOp with
+    | some e, some ops => reply (trace Branch.step showBranch (Branch.init e.ext e.c e.p) ops)
     | _, _ => "bad-op"
   | ["branchG", e, ops] =>
-    match parseBool e, (splitList ops).mapM parseSOp with
-    | some e, some ops => reply (trace Branch.stepG showBranch (Branch.init e) ops)
+    match parseEnv e, (splitList ops).mapM parseSOp with
+    | some e, some ops => reply (trace Branch.stepG showBranch (Branch.init e.ext e.c e.p) ops)
+    | _, _ => "bad-op"
+  | ["tree", e, ops] =>
+    match parseEnv e, (splitList ops).mapM parseTOp with
+    | some e, some ops => reply (trace Tree.step showTree (Tree.init e.ext e.t e.c e.p) ops)
+    | _, _ => "bad-op"
+  | ["repow", fx, e, ops] =>
+    match parseBool fx, parseEnv e, (splitList ops).mapM parseWOp with
+    | some fx, some e, some ops => reply (trace (RepoW.step fx) showRepoW (RepoW.init e.ext e.x) ops)
+    | _, _, _ => "bad-op"
+  | ["branchS", fx, e, ops] =>
+    match parseBool fx, parseEnv e, (splitList ops).mapM parseSOp with
+    | some fx, some e, some ops =>
+      reply (trace (BranchS.step fx) (fun s => showBranch s.b) (BranchS.init e.ext true) ops)
+    | _, _, _ => "bad-op"
+  | ["treeG", e, ops] =>
+    match parseEnv e, (splitList ops).mapM parseTOp with
+    | some e, some ops => reply (trace Tree.stepG showTree (Tree.init e.ext e.t e.c e.p) ops)
     | _, _ => "bad-op"
   | _ => "bad-op"
 
